@@ -946,6 +946,11 @@ def case_term(case, obs):
             for st, op in zip(obs["steps"], case["ops"]):
                 if st["op"] == "skip":
                     continue
+                if st["op"] in ("data", "set") and st["verdict"] is not None and st["verdict"] not in VALIDATION_ERRORS:
+                    # an exception that is not a validation verdict (e.g. TypeError raised by update_ui_values / set_enabled after an
+                    # ill-typed switch value such as [] passed the type rule): outside IfValidate's verdict model, and the object is
+                    # left half-updated - the history is compared up to here only (counted: histogram ifv_truncated)
+                    break
                 e = cexn(st["verdict"])
                 if e is None:
                     return "false"
@@ -957,6 +962,8 @@ def case_term(case, obs):
                     ops.append(f"OpData {ui_cur} {coq(st['data'])}")
                 else:
                     ops.append(f"OpSet {coq(st['data'])} {coq(op['key'])} {coq(op['value'])}")
+            if len(ops) < 2:
+                return None
             return f"verdicts_eqb (ifv_run 8 W0 ifv_start [" + "; ".join(ops) + "]) [" + "; ".join(exp) + "]"
         opts = f"{{| ignore_requirements := {C.cbool(bool(case.get('ignore_requirements')))}; ignore_list := [" + \
                (coq(case["name"]) if case.get("ignored") else "") + "] |}"
@@ -1369,6 +1376,9 @@ def histogram(cases, obs):
                 key = f"form:{op['op']}:{st.get('verdict')}"
                 h["verdicts"][key] = h["verdicts"].get(key, 0) + 1
         if k == "ifv":
+            if any(st["op"] in ("data", "set") and st.get("verdict") is not None and st.get("verdict") not in VALIDATION_ERRORS
+                   for st in o.get("steps", [])):
+                h["verdicts"]["ifv_truncated"] = h["verdicts"].get("ifv_truncated", 0) + 1
             for st in o.get("steps", []):
                 if st["op"] == "skip":
                     continue
